@@ -12,14 +12,14 @@ pub fn f5_round_up_to() {
     let d = any_pow2(0, 63);
     match round_up_to(n, d) {
         Some(x) => {
-            assert!(x >= n, "[C19] rounded value below the input (wrapped)");
-            assert!(x & (d - 1) == 0, "[C04,C19] not a multiple of the divisor");
-            assert!(x - n < d, "[C19] not the least multiple");
+            vassert!(x >= n, "NEVER: [C19] rounded value below the input (wrapped)");
+            vassert!(x & (d - 1) == 0, "NEVER: [C04,C19] not a multiple of the divisor");
+            vassert!(x - n < d, "NEVER: [C19] not the least multiple");
             kani::cover!(x == n && n > 0, "REACH: already aligned");
             kani::cover!(x > n, "REACH: rounded up");
         }
         None => {
-            assert!(n > usize::MAX - (d - 1), "[C19] None although the rounded value is representable");
+            vassert!(n > usize::MAX - (d - 1), "NEVER: [C19] None although the rounded value is representable");
             kani::cover!(true, "REACH: overflow refused");
         }
     }
@@ -42,17 +42,17 @@ pub fn details<const M: usize>() {
     let ea = if M > ea { M } else { ea };
     match r {
         Some(d) => {
-            assert!(d.align.is_power_of_two(), "[C04] chunk alignment not a power of two");
-            assert!(d.align >= ea, "[C04] chunk alignment below max(16, MIN_ALIGN, request)");
-            assert!(d.new_size_without_footer >= layout.size(), "[C01,C19] usable size below the request");
-            assert!(d.new_size_without_footer >= ((layout.size() + (d.align - 1)) & !(d.align - 1)),
-                    "[C01] usable size below the request rounded to the chunk alignment");
-            assert!(d.new_size_without_footer & 15 == 0, "[C04] usable size not a multiple of 16 (footer would be misaligned)");
-            assert!(d.size == d.new_size_without_footer + FOOTER_SIZE, "[C08,C19] total size is not usable + footer");
-            assert!(d.size > d.new_size_without_footer, "[C19] total size wrapped");
+            vassert!(d.align.is_power_of_two(), "NEVER: [C04] chunk alignment not a power of two");
+            vassert!(d.align >= ea, "NEVER: [C04] chunk alignment below max(16, MIN_ALIGN, request)");
+            vassert!(d.new_size_without_footer >= layout.size(), "NEVER: [C01,C19] usable size below the request");
+            vassert!(d.new_size_without_footer >= ((layout.size() + (d.align - 1)) & !(d.align - 1)),
+                    "NEVER: [C01] usable size below the request rounded to the chunk alignment");
+            vassert!(d.new_size_without_footer & 15 == 0, "NEVER: [C04] usable size not a multiple of 16 (footer would be misaligned)");
+            vassert!(d.size == d.new_size_without_footer + FOOTER_SIZE, "NEVER: [C08,C19] total size is not usable + footer");
+            vassert!(d.size > d.new_size_without_footer, "NEVER: [C19] total size wrapped");
             match hint {
-                Some(h) => assert!(d.new_size_without_footer >= h, "[C18] usable size below the size asked for"),
-                None => assert!(d.new_size_without_footer >= DEFAULT, "[C18] first chunk below the default size"),
+                Some(h) => vassert!(d.new_size_without_footer >= h, "NEVER: [C18] usable size below the size asked for"),
+                None => vassert!(d.new_size_without_footer >= DEFAULT, "NEVER: [C18] first chunk below the default size"),
             }
             // constant-factor: never more than twice what was needed plus a page
             let need = {
@@ -60,7 +60,7 @@ pub fn details<const M: usize>() {
                 let b = (layout.size() + (ea - 1)) & !(ea - 1);
                 if a > b { a } else { b }
             };
-            assert!(d.new_size_without_footer <= need.saturating_mul(2).saturating_add(4096), "[C18] chunk more than a constant factor above what was needed");
+            vassert!(d.new_size_without_footer <= need.saturating_mul(2).saturating_add(4096), "NEVER: [C18] chunk more than a constant factor above what was needed");
             kani::cover!(d.new_size_without_footer < 4096, "REACH: power-of-two regime");
             kani::cover!(d.new_size_without_footer > (1 << 40), "REACH: page-rounding regime, huge");
             kani::cover!(d.align == 4096, "REACH: over-aligned chunk");
@@ -68,7 +68,7 @@ pub fn details<const M: usize>() {
         }
         None => {
             // rounding to a page cannot overflow under the stated magnitude bound
-            assert!(false, "[C09,C18] size computation gave up on a representable size");
+            vassert!(false, "NEVER: [C09,C18] size computation gave up on a representable size");
         }
     }
 }
@@ -82,8 +82,8 @@ pub fn details_monotone<const M: usize>() {
     let a = Bump::<M>::new_chunk_memory_details(Some(h1), layout);
     let b = Bump::<M>::new_chunk_memory_details(Some(h2), layout);
     if let (Some(a), Some(b)) = (a, b) {
-        assert!(a.new_size_without_footer <= b.new_size_without_footer, "[C18] chunk size computation is not monotone");
-        assert!(a.align == b.align, "[C04] alignment depends on the size hint");
+        vassert!(a.new_size_without_footer <= b.new_size_without_footer, "NEVER: [C18] chunk size computation is not monotone");
+        vassert!(a.align == b.align, "NEVER: [C04] alignment depends on the size hint");
         kani::cover!(a.new_size_without_footer < b.new_size_without_footer, "REACH: strictly larger");
     }
     kani::cover!(true, "REACH: end");
@@ -101,11 +101,11 @@ pub fn f5_fits_under_limit() {
     let ok = Bump::<1>::chunk_fits_under_limit(rem, d);
     match rem {
         Some(r) => {
-            assert!(ok == (d.new_size_without_footer <= r), "[C07] limit filter admits a chunk above the headroom (or refuses one within it)");
+            vassert!(ok == (d.new_size_without_footer <= r), "NEVER: [C07] limit filter admits a chunk above the headroom (or refuses one within it)");
             kani::cover!(ok, "REACH: admitted");
             kani::cover!(!ok, "REACH: refused");
         }
-        None => assert!(ok, "[C07] no headroom information must mean no filtering"),
+        None => vassert!(ok, "NEVER: [C07] no headroom information must mean no filtering"),
     }
 }
 
